@@ -295,6 +295,21 @@ def deep_parts(tree):
     return {"itext": itext, "rootKids": root["k"], "rest": mk[i + 1:], "body": body["k"]}
 
 
+def dom_to_tree(el):
+    """a minidom tree in the driver's encoding"""
+    from xml.dom import Node as N
+
+    from pyxform.utils import PatchedText
+
+    kids = []
+    for c in el.childNodes:
+        if c.nodeType == N.ELEMENT_NODE:
+            kids.append(dom_to_tree(c))
+        elif c.nodeType in (N.TEXT_NODE, N.CDATA_SECTION_NODE):
+            kids.append({"x": c.data, "stock": not isinstance(c, PatchedText)})
+    return {"t": el.tagName, "a": [[k, v] for k, v in el.attributes.items()], "k": kids}
+
+
 def model_accepts(ctx, fields, tree):
     parts = deep_parts(tree)
     if parts is None:
@@ -311,19 +326,20 @@ def rejection_case(ctx, form, msg):
     if not hasattr(S, "validate_xml_document"):
         return
     orig = S.validate_xml_document
-    S.validate_xml_document = lambda *a, **k: None
+    seen = {}
+    S.validate_xml_document = lambda el, *a, **k: seen.setdefault("dom", el)
     try:
         r = impl.run(form, pretty=False, want_survey=True)
     finally:
         S.validate_xml_document = orig
-    if not r["ok"]:
+    if not r["ok"] or "dom" not in seen:
         ctx.count("rejected:no-document-without-validation")
         return
     fields = fields_of(r["_pyxform"])
-    v = ctx.driver.call("xml.parse", text=r["xform"], tree=True)
-    if fields is None or not v["ok"]:
-        ctx.count("rejected:document-not-readable" if fields is not None else "model:unsupported")
+    if fields is None:
+        ctx.count("model:unsupported")
         return
+    v = {"tree": dom_to_tree(seen["dom"])}   # the DOM itself, not a re-parse: names may contain markup characters
     acc = model_accepts(ctx, fields, v["tree"])
     if acc is None:
         ctx.count("rejected:frame-not-destructurable")
